@@ -2,4 +2,5 @@
 #include <crab/domains/split_dbm.hpp>
 using namespace simd;
 using D = split_dbm_domain<z_number, varname_t, G_safe>;
-SIM_REGISTER_DOMAIN(zones_sdbm_safe, D, "zones_sdbm_safe", CAP_EXACT_EXPORT | CAP_NTOW)
+SIM_REGISTER_DOMAIN(zones_sdbm_safe, D, "zones_sdbm_safe",
+                    CAP_EXACT_EXPORT | CAP_NTOW | CAP_BACKWARD)
